@@ -23,7 +23,7 @@
      temperature                                             action Ramp (see Composes)
      Component.getDimension(key, Tc=None, cold=False)        operator Q  (links are resolved at read time,
                                                _DimensionLink.resolveDimension passes Tc and cold through)
-     getArea / getVolume / getMass / getNumberDensities      observation operators AreaQ, MPH, nd
+     getArea(Tc=None) / getVolume / getMass / getNumberDensities   observation operators AreaAt, AreaQ, MPH, nd
 
    Exact arithmetic.  Every observable is  base * product of integer powers of the material factors
    f[c,t] (solids) or rho[c,t] (fluids), c a component, t a temperature index.  The model carries only the
@@ -44,7 +44,9 @@
      constructed component: for given (Tinput, Thot at construction, dimensions) the state after any sequence
      of setTemperature calls equals the state after the direct jump (PathIndependent).
    * Dimensions: "e0","e1","e2" are lengths (thermally expanding), "n0","n" are counts (mult, nHoles).  "e0" and
-     "n0" stand for all dimensions of a shape that a behaviour does not touch; actions act on MutDim only.
+     "n0" stand for all dimensions of a shape that a behaviour does not touch -- including dimensions a class inherits
+     and its own area formula does not use (a Square keeps Rectangle's lengthOuter / lengthInner: they are lengths and
+     must read hot like any other); actions act on MutDim only.
    * The area of an extruded shape is homogeneous of degree 2 in its lengths.  When all lengths of a component
      grow by one common factor the area is coldArea * factor^2 (AreaQ "ok"); when a linked length follows a
      different component the area is not a monomial ("mixed") and only the identities
@@ -131,8 +133,10 @@ Hot(c, d)  == Q(c, d, 0, FALSE)
 Cold(c, d) == Q(c, d, 0, TRUE)
 TEFQ(c) == IF TEFRefused(c, T[c], Tin[c]) THEN Refused ELSE [r |-> "ok", e |-> TEF(c, T[c], Tin[c])]
 
-\* getArea() relative to getArea(cold=True): degree-2 homogeneous in the lengths
-AreaQ(c) == LET h0 == Hot(c, "e0")  h1 == Hot(c, "e1")  h2 == Hot(c, "e2")     \* (scalar LETs: TLC evaluates each once)
+\* getArea(Tc = tc (0 = None)) relative to getArea(cold=True): degree-2 homogeneous in the lengths; every shape reads its
+\* lengths with getDimension(..., Tc=Tc), UnshapedComponent multiplies its cold area by getThermalExpansionFactor(Tc)^2
+AreaAt(c, tc) ==
+            LET h0 == Q(c, "e0", tc, FALSE)  h1 == Q(c, "e1", tc, FALSE)  h2 == Q(c, "e2", tc, FALSE)   \* (scalar LETs: evaluated once)
                 g0 == MSub(h0.e, Cold(c, "e0").e)
                 g1 == MSub(h1.e, Cold(c, "e1").e)
                 g2 == MSub(h2.e, Cold(c, "e2").e)
@@ -140,6 +144,7 @@ AreaQ(c) == LET h0 == Hot(c, "e0")  h1 == Hot(c, "e1")  h2 == Hot(c, "e2")     \
                ELSE IF g1 = g0 /\ g2 = g0
                     THEN [r |-> "ok", e |-> MScale(2, g0)]
                     ELSE [r |-> "mixed"]
+AreaQ(c) == AreaAt(c, 0)
 \* getMass() / height relative to (mass density of the constructed number densities) * getArea(cold=True)
 MPHof(c, a) == IF a.r = "ok" THEN [r |-> "ok", e |-> MAdd(nd[c], a.e)] ELSE a
 MPH(c) == LET a == AreaQ(c) IN MPHof(c, a)
@@ -158,6 +163,7 @@ Obs == [c \in Comp |->
            at   |-> [t \in Temp |-> [d \in Dim |-> Pr(Q(c, d, t, FALSE))]],
            link |-> [d \in MutDim |-> p[c][d].k = "l"],
            area |-> Pr(a),
+           areaAt |-> [t \in Temp |-> Pr(AreaAt(c, t))],
            mph  |-> Pr(MPHof(c, a))]]
 
 (* ---------------------------------- component.py: mutators ---------------------------------- *)
@@ -276,7 +282,9 @@ DimensionLaw ==
 \* "its area grows by the square of the material's linear expansion factor"
 AreaGrowsBySquare ==
     \A c \in Live : kind[c] = "solid" /\ (\A d \in MutDim : p[c][d].k = "v") =>
-        AreaQ(c) = [r |-> "ok", e |-> MScale(2, MSub(U(c, T[c]), U(c, Tin[c])))]
+        /\ AreaQ(c) = [r |-> "ok", e |-> MScale(2, MSub(U(c, T[c]), U(c, Tin[c])))]
+        \* ... at any requested temperature, whatever the current one is: getArea(Tc=t)
+        /\ \A t \in Temp : AreaAt(c, t) = [r |-> "ok", e |-> MScale(2, MSub(U(c, t), U(c, Tin[c])))]
 
 \* "conserves its mass per unit height": for a solid whose lengths all follow its own factor, the mass per unit
 \* height (per unit cold area) does not depend on the current temperature -- it is the value at construction
